@@ -14,7 +14,8 @@ counter and the `sexagesimal_is_time` flag; `expr / term / unary / primary`, `en
 Loops are structural recursions over the remaining bytes; the `expr`/`term` loops and the recursion
 through parentheses / `deg(` / `rad(` take fuel (`Res.fuel` = fuel exhausted; `Props/C19` proves it is
 never returned).  Every operation of the Rust code that can panic is an explicit `Res.panic`:
-`&self.s[a..b]` off a char boundary, `self.b[self.i - 1]`, `depth -= 1` (the harness builds with
+`&self.s[a..b]` off a char boundary (identifier and the dead no-`buf` number slice; `starts_ci` compares
+bytes since the fix bebcb49), `self.b[self.i - 1]`, `depth -= 1` (the harness builds with
 overflow checks), `depth += 1`.
 
 All floating point goes through `Model/F64.lean` (no `Float`).
@@ -181,12 +182,11 @@ def exitAfter {α} (r : Res (α × St)) : Res (α × St) :=
   | .panic s => .panic s
   | .fuel => .fuel
 
-/-- `starts_ci(kw)` for a 4-byte keyword (`kw` in lower case): `end > len → false`, then the slice
-`&self.s[self.i..end]` (panics off a char boundary), then the ASCII-case-insensitive comparison. -/
-def startsCi (rest : List Nat) (kw : List Nat) : HRes Bool :=
-  if rest.length < kw.length then .ok false
-  else if !(boundaryAhead rest 0 && boundaryAhead rest kw.length) then .panic .strSlice
-  else .ok ((rest.take kw.length).map lowerByte == kw)
+/-- `starts_ci(kw)` (`kw` in lower case): `end > len → false`, else the ASCII-case-insensitive
+comparison of the BYTES `self.b[self.i..end]` with the keyword (no `str` slice, hence no panic). -/
+def startsCi (rest : List Nat) (kw : List Nat) : Bool :=
+  if rest.length < kw.length then false
+  else (rest.take kw.length).map lowerByte == kw
 
 /-- advance the cursor by `n` bytes (`self.i += n`) -/
 def advN : Nat → List Nat → List Nat → HRes (List Nat × List Nat)
@@ -351,13 +351,11 @@ def numExp (n2 : NumSt) : HRes NumSt :=
 
 /-- `parse_number_or_special` -/
 def parseNumberOrSpecial (tag : Nat) (st : St) : Res (Eval × St) :=
-  (HRes.lift st.depth (startsCi st.rest [46, 105, 110, 102])).bind fun isInf =>
-  if isInf then
+  if startsCi st.rest [46, 105, 110, 102] then
     (HRes.lift st.depth (advN 4 st.pre st.rest)).bind fun (p, r) =>
       .ok ((.inf false, false, true), { st with pre := p, rest := r })
   else
-  (HRes.lift st.depth (startsCi st.rest [46, 110, 97, 110])).bind fun isNan =>
-  if isNan then
+  if startsCi st.rest [46, 110, 97, 110] then
     (HRes.lift st.depth (advN 4 st.pre st.rest)).bind fun (p, r) =>
       .ok ((.nan, false, true), { st with pre := p, rest := r })
   else
@@ -542,14 +540,22 @@ def fromF64 (f32 : Bool) (v : Fl) : Fl := if f32 then convert binary32 v else v
 
 def fmtOf (f32 : Bool) : Fmt := if f32 then binary32 else binary64
 
-/-- `parse_yaml12_float::<f64|f32>(s, _, tag, angle_conversions)`. -/
+/-- `parse_yaml12_float::<f64|f32>(s, _, tag, angle_conversions)` (since 78f916b): the plain reading is
+computed first; with the option on it is returned as it is — parsed directly into the target width —
+whenever it succeeded and the tag is not `!degrees`; otherwise the evaluator runs.  With the option off
+the plain reading (or `InvalidScalar`) is the result. -/
 def parseYaml12Float (f32 : Bool) (s : List Char) (tag : Nat) (angle : Bool) : FRes :=
+  let plain := parsePlain (fmtOf f32) s
   if angle then
-    match evalExpr tag (utf8 s) with
-    | .ok v => .ok (fromF64 f32 v)
-    | .err e _ => .hook e
-    | .panic p => .panic p
-    | .fuel => .fuel
-  else parsePlain (fmtOf f32) s
+    let viaEvaluator : FRes :=
+      match evalExpr tag (utf8 s) with
+      | .ok v => .ok (fromF64 f32 v)
+      | .err e _ => .hook e
+      | .panic p => .panic p
+      | .fuel => .fuel
+    match plain with
+    | .ok v => if tag != TAG_DEGREES then .ok v else viaEvaluator
+    | _ => viaEvaluator
+  else plain
 
 end SaphyrVerif.Robotics
